@@ -350,6 +350,21 @@ def closure_rules(model, R):
                 ret = s
             elif isinstance(s, ast.Expr) and isinstance(s.value, ast.Constant):
                 pass
+            elif (isinstance(s, ast.If) and not s.orelse and len(s.body) == 1 and isinstance(s.body[0], ast.Return)
+                  and isinstance(s.test, ast.UnaryOp) and isinstance(s.test.op, ast.Not) and name_is(s.test.operand, param) and nloop == 0):
+                # shortcut for the empty input: the derivation of the empty collection is *everything* of the other kind, its
+                # closure the members common to all - never the empty input itself
+                rv = s.body[0].value
+                parts0 = rv.elts if isinstance(rv, ast.Tuple) else [rv]
+                echoes = [p_ for p_ in parts0 if isinstance(p_, ast.Call) and len(p_.args) == 1 and name_is(p_.args[0], param)] + \
+                         [p_ for p_ in parts0 if name_is(p_, param)]
+                if echoes:
+                    R.bad('WIRING', f, s, f'{name}: the empty input is derived like any other', 'no shortcut (the loops do nothing and the all-ones seeds remain)',
+                          f'if not {param}: return {src(rv)}',
+                          extra={'consequence': 'the closure of the empty set is the set of members related to everything (non-empty when a full row/column exists), '
+                                                'not the empty set'})
+                else:
+                    R.unknown('WIRING', f, s, f'{name}: statement', src(s)[:60])
             else:
                 R.unknown('WIRING', f, s, f'{name}: statement', src(s)[:60])
             seq.append(s)
@@ -427,6 +442,42 @@ def closure_rules(model, R):
     # both families are paired with the same relation, so recording it on either partner reaches both
     R.check(bool(rel_any) and st.get('relation_index') == p_idx, 'WIRING', pw, pw.node, '_pair_with records the relation and its own index',
             f'relation={p_rel}, {self_}.relation_index={p_idx}', str({k: v for k, v in st.items() if k.startswith('relation')}))
+
+
+TRUSTED_BITSET_API = ('frommembers', 'fromint', 'frombools', 'members', 'bools', 'atoms', 'inatoms', 'iter_set', 'count', 'shortlex', 'longlex',
+                      'shortcolex', 'longcolex', 'powerset', 'reduce_and', 'reduce_or', 'real', '__new__')
+
+
+def vector_base(model, R):
+    """The bit vectors are bitsets.bases.MemberBits itself (whose API the axioms of section 3 describe) or a subclass that leaves
+    that API alone.  An override of ``frommembers`` is decided when it is the library's own one-liner: the members must be
+    de-duplicated before their masks are *added*."""
+    mod = model.modules['matrices']
+    if 'Vector' in mod.assigns and 'Vector' not in mod.classes:
+        R.expr(mod.assigns['Vector'], 'bitsets.bases.MemberBits', 'WIRING', 'matrices.Vector', 'Vector is the library bit-set base class')
+        return
+    cls = mod.classes.get('Vector')
+    if cls is None:
+        R.unknown('WIRING', 'matrices.Vector', mod.tree, 'Vector', 'neither an alias nor a class')
+        return
+    R.check(any(src(b) == 'bitsets.bases.MemberBits' for b in cls.node.bases), 'WIRING', 'matrices.Vector', cls.node, 'Vector derives from the library bit-set base class',
+            'class Vector(bitsets.bases.MemberBits)', ', '.join(src(b) for b in cls.node.bases))
+    for name, m in cls.methods.items():
+        if name not in TRUSTED_BITSET_API:
+            continue
+        if name == 'frommembers':
+            r = [n.value for n in walk(m.body) if isinstance(n, ast.Return)]
+            v = r[0] if len(r) == 1 else None
+            inner = v.args[0] if isinstance(v, ast.Call) and (chain(v.func) or [''])[-1] == 'fromint' and len(v.args) == 1 else None
+            if isinstance(inner, ast.Call) and name_is(inner.func, 'sum') and len(inner.args) == 1 and isinstance(inner.args[0], ast.Call) \
+                    and name_is(inner.args[0].func, 'map') and len(inner.args[0].args) == 2:
+                coll = inner.args[0].args[1]
+                dedup = isinstance(coll, ast.Call) and isinstance(coll.func, ast.Name) and coll.func.id in ('set', 'frozenset')
+                R.decided(dedup, 'WIRING', m, v, 'Vector.frommembers: the masks of *distinct* members are added', 'sum(map(cls._map.__getitem__, set(members)))',
+                          src(inner)[:90], extra={'consequence': 'a label given twice contributes its bit twice: the sum carries into the neighbouring position '
+                                                                 '(another member, or an index beyond the table)'})
+                continue
+        R.unknown('WIRING', m, m.node, f'Vector.{name} overrides the library API the axioms describe', 'override not judged')
 
 
 def relation_new(model, R):
@@ -557,6 +608,7 @@ def run(model, R):
     R.floor('WIRING', 30)
     R.guard('WIRING', None, '_pair_with closures', closure_rules, model, R)
     R.guard('WIRING', None, 'Relation.__new__', relation_new, model, R)
+    R.guard('WIRING', None, 'Vector', vector_base, model, R)
     R.guard('WIRING', None, 'intension/extension', api_routes, model, R)
     R.guard('PRECISION', None, 'precision', precision, model, R)
     return __doc__.strip()
